@@ -771,9 +771,9 @@ def gen_cases(rng, tier):
         for _ in range(1000):
             yield _sim_case(rng)
     elif tier == "thorough":
-        for _ in range(6):
+        for _ in range(4):
             yield from _focused_cases(rng)
-        for _ in range(6000):
+        for _ in range(3000):
             yield _sim_case(rng)
         for _ in range(30):
             yield _real_case(rng)
